@@ -75,6 +75,17 @@ fn main() {
         extra,
     };
     common::quiet_panics();
+    // a run that does not come back is a machinery failure, not a verdict (e.g. an endless loop inside
+    // one execution, which no exploration bound can interrupt)
+    {
+        let cap_s: u64 = std::env::var("MC_WALL_CAP_S").ok().and_then(|v| v.parse().ok()).unwrap_or(if ctx.tier == common::Tier::Quick { 900 } else { 6 * 3600 });
+        let prop = ctx.prop.clone();
+        std::thread::spawn(move || {
+            std::thread::sleep(std::time::Duration::from_secs(cap_s));
+            eprintln!("MACHINERY: {} did not finish within the wall-clock cap of {} s", prop, cap_s);
+            std::process::exit(2);
+        });
+    }
     let code = match prop.as_str() {
         "C01" => props::c01::run_check(&ctx),
         "C02" => props::c02::run_check(&ctx),
